@@ -142,6 +142,8 @@ func init() {
 		return []string{"false"}
 	}
 	implOps["p7_parse"] = func(a []string) []string {
+		// the process is not in UTC: what is parsed and re-encoded must not depend on the zone
+		time.Local = time.FixedZone("verif+0530", 5*3600+1800)
 		p, err := pkcs7.ParsePKCS7(unhx(a[0]))
 		if err != nil {
 			return []string{"err"}
@@ -715,6 +717,14 @@ func p7Mutants(s p7Seed, rng *rand.Rand, nflip int) [][2]interface{} {
 	serialEdit("signer-serial-add-leading-zero", func(v []byte) []byte { return append([]byte{0}, v...) })
 	serialEdit("signer-serial-sign-extend", func(v []byte) []byte { return append([]byte{0xff}, v...) })
 	serialEdit("signer-serial-flip-sign", func(v []byte) []byte { v[0] ^= 0x80; return v })
+	edit("no-signers", func(sd *dnode) bool { // an empty signerInfos SET is legal
+		sis := signerInfos(sd)
+		if sis == nil {
+			return false
+		}
+		sis.children, sis.val = []*dnode{}, []byte{}
+		return true
+	})
 	edit("duplicate-signer", func(sd *dnode) bool {
 		sis := signerInfos(sd)
 		if sis == nil || len(sis.children) == 0 {
